@@ -490,6 +490,8 @@ EXPECT_ASFOUND = {"F2": "DescendingGridCorrectOrRejected", "F3": "TimesSigned", 
 
 
 def main(tier=None, replay=None):
+    if replay:
+        replay = os.path.abspath(replay)          # Check() moves the process to its scratch directory
     ck = Check("C10", "model_checking", tier)
     rnd = random.Random(ck.seed)
     import warnings
